@@ -53,6 +53,32 @@ int main() {
     auto p = parser(list, terms('a', 'b', ','), nterms(list, item), rules(list(item), list(list, ',', item) >= [](int l, skip, int x) { return l * 10 + x; }, item('a') >= [](skip) { return 1; }, item('b') >= [](skip) { return 2; }));
     ctx c; for (const char* s : {"a,b,a", "b", "a,,b", ""}) { auto r1 = p.parse(string_buffer(s)); auto r2 = p.context_parse(c, string_buffer(s)); CHECK(r1 == r2, "parse != context_parse on '" << s << "'"); }
     CHECK(c.log.empty(), "non-contextual functors received the context"); }
+  { // the context flag of '>>=' survives every order of writing a rule with an explicit precedence: (rule >>= f)[n] and rule[n] >>= f;
+    // the functors are callable with and without a context, so only the flag decides - and it must decide "with"
+    struct both { int* with_ctx; int* without;
+      int operator()(ctx& c, int a, skip, int b) const { ++*with_ctx; c.touch(7); return a + b; }
+      int operator()(int a, skip, int b) const { ++*without; return a + b; } };
+    static int w1 = 0, n1 = 0, w2 = 0, n2 = 0;
+    constexpr nterm<int> e("e");
+    auto p = parser(e, terms('a', char_term('+', 1, associativity::ltor), char_term('*', 2, associativity::ltor)), nterms(e), rules(
+      e('a') >= [](skip) { return 1; },
+      (e(e, '+', e) >>= both{&w1, &n1})[1],
+      e(e, '*', e)[2] >>= both{&w2, &n2}));
+    ctx c; auto r = p.context_parse(c, string_buffer("a+a*a+a"));
+    CHECK(r && *r == 4, "precedence rules with context: value");
+    CHECK(w1 == 2 && n1 == 0, "(rule >>= f)[n]: the functor attached with >>= was called " << w1 << " times with the context and " << n1 << " times without (expected 2 / 0)");
+    CHECK(w2 == 1 && n2 == 0, "rule[n] >>= f: called " << w2 << " times with the context and " << n2 << " times without (expected 1 / 0)");
+    CHECK(c.log == std::vector<int>({7, 7, 7}), "precedence rules with context: the caller's context was not updated by every '>>=' functor"); }
+  { // parse and context_parse agree through EVERY overload (with / without options, with / without stream) on inputs with white space
+    auto p = parser(list, terms('a', 'b', ','), nterms(list, item), rules(list(item), list(list, ',', item) >= [](int l, skip, int x) { return l * 10 + x; }, item('a') >= [](skip) { return 1; }, item('b') >= [](skip) { return 2; }));
+    ctx c; utils::no_stream ns;
+    for (const char* s : {"a , b", " a,b ", "a,\nb\t, a\n", "a", " "}) {
+      auto r0 = p.parse(string_buffer(s)); std::stringstream e1, e2, e3;
+      CHECK(p.context_parse(c, string_buffer(s)) == r0, "context_parse(ctx, buffer) != parse(buffer) on '" << s << "'");
+      CHECK(p.context_parse(c, string_buffer(s), e1) == r0, "context_parse(ctx, buffer, stream) != parse(buffer) on '" << s << "'");
+      CHECK(p.context_parse(c, parse_options{}, string_buffer(s), e2) == r0, "context_parse(ctx, options, buffer, stream) != parse(buffer) on '" << s << "'");
+      CHECK(p.parse(string_buffer(s), e3) == r0 && p.parse(parse_options{}, string_buffer(s), ns) == r0, "parse overloads disagree on '" << s << "'");
+      CHECK(p.context_parse(0, string_buffer(s)) == r0 && p.context_parse(ctx{}, string_buffer(s)) == r0, "context_parse with a temporary context != parse(buffer) on '" << s << "'"); } }
   { // failed and recovering parses route the same way
     ctx c; auto p = make<ctx>(); auto r = p.context_parse(c, string_buffer("a,a,,b")); CHECK(!r && c.log == std::vector<int>({2, 0, 2}), "failing parse: contextual calls before the error"); }
   std::cout << "fails=" << fails << "\n"; return fails ? 1 : 0;
